@@ -30,9 +30,15 @@ _parser = None
 def parser():
     global _parser
     if _parser is None:
-        from lasio.reader import SectionParser
+        from vlib.api import HarnessError
+        try:
+            from lasio.reader import SectionParser
 
-        _parser = SectionParser("~Well", version=2.0)
+            _parser = SectionParser("~Well", version=2.0)
+            _parser.num  # noqa - the direct observation point of this check
+        except (ImportError, AttributeError) as e:
+            raise HarnessError("C08 observes lasio.reader.SectionParser.num directly; it is not there any more (%s): "
+                               "adapt the check, this is not a violation" % e)
     return _parser
 
 
